@@ -95,6 +95,10 @@ pub fn make_ord(hash: HashT, m: u32, l: usize) -> Box<dyn FnMut(&[u64]) -> Vec<u
             let mut sk = ProbOrdMinHash2::<crate::hashers::SimA>::new(m, l);
             Box::new(move |s| OrdNode::hash_set(&mut sk, s))
         }
+        HashT::Ident => {
+            let mut sk = ProbOrdMinHash2::<crate::hashers::IdentHasher>::new(m, l);
+            Box::new(move |s| OrdNode::hash_set(&mut sk, s))
+        }
         _ => {
             let mut sk = ProbOrdMinHash2::<fnv::FnvHasher>::new(m, l);
             Box::new(move |s| OrdNode::hash_set(&mut sk, s))
